@@ -29,8 +29,20 @@ def _check(ctx, behs, tag, drift=True):
     res = sl.validate(ctx, tpath, CFG, tag)
     if not res["accepted"]:
         f = sl.failing(res, rows, behs)
-        origin = sl.plan_ref_origin(f["chunk"], f["off"])
-        f["sig"] = "%s@plan-ref-from-%s" % (f["inv"], origin)
+        ev = f["event"]
+        bad = [c for c in sl.CONS if not (ev["cs"][c]["pfound"] and ev["cs"][c]["ffound"] and not ev["cs"][c]["perr"])]
+        if f["inv"] in ("RefsCoverHolders", "HeldVersionsExist"):
+            # refcount ghost: name the step kind that broke the bookkeeping
+            k = ev["ev"]
+            if k == "month" and f["off"] >= 2:
+                ks = sorted({sl.month_kind(f["chunk"][f["off"] - 2], ev, c) for c in sl.CONS if sl.fired(f["chunk"][f["off"] - 2], ev, c)})
+                k = "month-" + "+".join(ks)
+            f["sig"] = "%s@%s" % (f["inv"], k)
+            f["who"] = "-"
+        else:
+            cn = bad[0] if bad else next((c for c in sl.CONS if ev["cs"][c]["sub"]["on"]), "c1")
+            f["sig"] = "%s@plan-ref-from-%s" % (f["inv"], sl.plan_ref_origin(f["chunk"], f["off"], cn))
+            f["who"] = cn
         return f, rows
     if drift:
         r2 = sl.validate(ctx, tpath, "Trace_Subscription_drift.cfg", tag + "_drift", drift=True)
@@ -46,10 +58,12 @@ def _check(ctx, behs, tag, drift=True):
 
 def _report(ctx, f):
     ev = f["event"]
-    what = ("%s violated at step %d (%s): live subscription references plan %s@%s, FindPlan found=%s future found=%s "
-            "GetPlanFromSubscription failed=%s panic=%s %s" % (
-                f["inv"], f["off"] - 1, ev["ev"], ev["sub"]["pi"], ev["sub"]["pb"], ev["pfound"], ev["ffound"],
-                ev["perr"], ev["panic"], ev["pmsg"][:200]))
+    subs = {c: {"plan": "%s@%s" % (ev["cs"][c]["sub"]["pi"], ev["cs"][c]["sub"]["pb"]), "found": ev["cs"][c]["pfound"],
+                "future_found": ev["cs"][c]["ffound"], "lookup_failed": ev["cs"][c]["perr"]}
+            for c in sl.CONS if ev["cs"][c]["sub"]["on"]}
+    plans = {p: [(v["b"], v["ref"], v["latest"]) for v in vs] for p, vs in ev["plans"].items()}
+    what = ("%s violated at step %d (%s): live subscriptions %s; plan versions (block, refcount, latest) %s; panic=%s %s" % (
+        f["inv"], f["off"] - 1, ev["ev"], subs, plans, ev["panic"], ev["pmsg"][:200]))
     ctx.violation(f["sig"], what, {"behaviours": [f["beh"]]})
 
 
